@@ -150,7 +150,7 @@ func init() {
 				J(".", "VX_C20_ContextStatus", 0, 2), J(".", "VX_C20_ContextStatus", 1, 2), J(".", "VX_C20_ContextStatus", 2, 2), J(".", "VX_C20_ContextStatus", 3, 2),
 			}
 			if tier == "thorough" {
-				js = append(js, J("socket", "VX_C20_Message", 2, 1, 0, 2), J("socket", "VX_C20_Message", 2, 2, 3, 2), J("socket", "VX_C20_Args", 2, 1, 2), J("socket", "VX_C20_Args", 1, 2, 3), J("socket", "VX_C20_Args", 2, -1, 3), J("socket", "VX_C05_ReusedMessage", 2))
+				js = append(js, J("socket", "VX_C20_Message", 2, 1, 0, 2), J("socket", "VX_C20_Message", 2, 2, 3, 2), J("socket", "VX_C20_Args", 1, 1, 2), J("socket", "VX_C20_Args", 2, -1, 3), J("socket", "VX_C05_ReusedMessage", 2))
 			}
 			return js
 		},
